@@ -2,7 +2,7 @@
    Model: Model/VConstraint.v.  Proofs: Proofs/RangeSpec.v, RangeAlg.v, RangeOps.v, UnionHull.v, UnionExact.v. *)
 From Coq Require Import List Bool NArith String.
 From PC Require Import Base.Cmp Base.Result Model.Pep440 Spec.Pep440Spec Model.VConstraint
-     Proofs.VersionFacts Proofs.RangeSpec Proofs.RangeAlg Proofs.RangeOps Proofs.UnionHull Proofs.UnionExact Proofs.Contain Proofs.InterExact Proofs.DiffExact Proofs.DiffUnion Proofs.UnionTotalGood Model.VHyp.
+     Proofs.VersionFacts Proofs.RangeSpec Proofs.RangeAlg Proofs.RangeOps Proofs.UnionHull Proofs.UnionExact Proofs.Contain Proofs.InterExact Proofs.DiffExact Proofs.DiffUnion Proofs.UnionTotalGood Proofs.DiffTotal Model.VHyp.
 From PC Require Import Gen.RangeCmp Proofs.GenAgreeRange.
 Import ListNotations.
 
@@ -149,13 +149,21 @@ Proof. do 3 eexists. repeat split; vm_compute; reflexivity. Qed.
    evaluated by the check on every generated pair (Api command chyp2; the evidence reports how many pairs meet them): members
    good, unions sorted and apart, and the bounds mentioned by the two operands mutually regular ([h_mutual]: any two bounds are
    equal or of different release classes — without it the implementation itself builds improper pieces such as [2.0, 2.0a1]).
-   The statement is about results [Ok c]: that the fuel [difference] passes to the state machine suffices is not shown. *)
+   C05_difference_exact is about results [Ok c]; that the result exists is C05_difference_defined below. *)
 Theorem C05_difference_exact : forall a b c, goodc a = true -> goodc b = true -> sorted_c a = true -> sorted_c b = true ->
   h_mutual a b = true -> (match a with VOne (RV _) => no_local_hole b | _ => True end) ->
   difference a b = Ok c ->
   goodc c = true /\ forall v, wf v = true -> regular_c v a = true -> regular_c v b = true -> sem c v = sem a v && negb (sem b v).
 Proof. exact difference_admits_exactly. Qed.
 Print Assumptions C05_difference_exact.
+(* ... and defined, under the same hypotheses (the bounds in one mutually regular set B): every step of the sweep and of the state
+   machine returns, and the fuel suffices *)
+Theorem C05_difference_defined : forall B a b, mutual B -> goodc a = true -> goodc b = true -> sorted_c a = true -> sorted_c b = true ->
+  incl (cbounds a) B -> incl (cbounds b) B -> nonempty_union a -> nonempty_union b ->
+  (match a with VOne (RV x) => exists al, allows b x = Ok al | _ => True end) ->
+  exists c, difference a b = Ok c.
+Proof. exact difference_total. Qed.
+Print Assumptions C05_difference_defined.
 (* the complement of a union (VersionUnion._inverted, used by allows / excludes_single_version and by printing) *)
 Theorem C05_inverted_exact : forall B l c, mutual B -> forallb good l = true -> sepb l = true -> incl (lbounds l) B ->
   inverted l = Ok c ->
@@ -171,7 +179,7 @@ Example C05_difference_union_example :
     goodc a = true /\ goodc b = true /\ sorted_c a = true /\ sorted_c b = true /\ h_mutual a b = true /\
     difference a b = Ok c /\ vc_str c = Ok ">=1.0,<1.5 || >3.5,<=4.0 || >5.0,<=6.0"%string.
 Proof. do 3 eexists. repeat split; vm_compute; reflexivity. Qed.
-(* Still open: that the operations return at all beyond the range level (totality), and that VersionUnion.of's result is
+(* Still open: that intersection returns at all beyond the range level, and that VersionUnion.of's result is
    [sorted_c]: it is not in general — '>2.0 || 2.0.post2' is a union the implementation builds (the range excludes
    post-releases of its bound) whose members overlap in the plain order; such operands are outside the hypotheses and are
    counted by the check at run time. *)
